@@ -12,7 +12,7 @@ from props import gen_c17 as G
 class C17(Prop):
     id = "C17"
     title = "A program loaded from a saved binary equals what its source compiles to"
-    lean_modules = ["NV.C17.Props", "NV.C17.Witness"]
+    lean_modules = ["NV.C17.Props", "NV.C17.Witness", "NV.C17.SpecTests"]
     theorems = [
         "NV.C17.never_stale",
         "NV.C17.never_stale_transitive",
@@ -208,7 +208,19 @@ class C17(Prop):
         return G.generate(rng, n, tier)
 
     def histogram(self, cases, impl):
-        return G.histogram(cases, impl)
+        h = G.histogram(cases, impl)
+        # which branch of the decision model every load_binary call took
+        try:
+            ms = [E.Case(c.id, c.lines + ["--"] + impl.get(c.id, [])) for c in cases]
+            out = E.nvdrive(self.id, "reasons", E.cases_text(ms))
+            br = {}
+            for ls in out.values():
+                for l in ls:
+                    br[l] = br.get(l, 0) + 1
+            h["decision_branches"] = br
+        except Exception as e:  # noqa
+            h["decision_branches"] = "unavailable: %s" % e
+        return h
 
 
 PROP = C17()
